@@ -58,6 +58,7 @@ Fixpoint nopar (e : expr) : bool :=
   | MCall _ a _ args => nopar a && forallb nopar args
   | Tern c a b => nopar c && nopar a && nopar b
   | SizeofT => true
+  | ArrLit l => forallb nopar l
   end.
 
 Lemma map_strip_nopar l : Forall (fun e => nopar e = true -> strip e = e) l ->
@@ -77,6 +78,7 @@ Proof.
     try reflexivity.
   - rewrite (map_strip_nopar args H Hn). reflexivity.
   - rewrite (map_strip_nopar args H H1). reflexivity.
+  - rewrite (map_strip_nopar l H Hn). reflexivity.
 Qed.
 
 Theorem roundtrip_min_l : forall tbl e rest,
@@ -100,6 +102,7 @@ Proof.
   induction e using expr_ind2; cbn [full strip]; rewrite ?strip_wrap; try congruence.
   - rewrite (map_strip_full args H). reflexivity.
   - rewrite (map_strip_full args H), IHe. reflexivity.
+  - rewrite (map_strip_full l H). reflexivity.
 Qed.
 
 Lemma wf_wrap e : wf (wrap e) = wf e.
@@ -141,6 +144,7 @@ Fixpoint fullpar (e : expr) : bool :=
   | Cast _ a => opnd a && fullpar a
   | EProp a | Generic _ a => fullpar a
   | SizeofT => true
+  | ArrLit l => forallb fullpar l
   end.
 
 Lemma opnd_wrap e : opnd (wrap e) = true.
